@@ -1754,6 +1754,15 @@ func (db *DB) dropAll() (func(), error) {
 	db.lock.Lock()
 	defer db.lock.Unlock()
 
+	// Drop the oldest data first: the tables, then the memtables with their WALs, then the value
+	// log. If the process dies in between, the WALs that are still there hold the newest version of
+	// their keys; the other way round, a restart would serve the older versions left in the tables.
+	num, err := db.lc.dropTree()
+	if err != nil {
+		return resume, err
+	}
+	db.opt.Infof("Deleted %d SSTables. Now deleting value logs...\n", num)
+
 	// Remove inmemory tables. Calling DecrRef for safety. Not sure if they're absolutely needed.
 	db.mt.DecrRef()
 	for _, mt := range db.imm {
@@ -1764,12 +1773,6 @@ func (db *DB) dropAll() (func(), error) {
 	if err != nil {
 		return resume, y.Wrapf(err, "cannot open new memtable")
 	}
-
-	num, err := db.lc.dropTree()
-	if err != nil {
-		return resume, err
-	}
-	db.opt.Infof("Deleted %d SSTables. Now deleting value logs...\n", num)
 
 	num, err = db.vlog.dropAll()
 	if err != nil {
